@@ -28,6 +28,7 @@ META["level_text"] += " Also decided, as necessary conditions of the second sent
 META["technique"] += "; sibling agreement between the undefined classes (a relaxed hook must have the default's body, operands of and/or chains compared as sets)"
 META["technique"] += '; truth-table complement check of reject against where'
 META["technique"] += "; nil tests on elements in filter comprehensions cover undefined and the map placeholder"
+META["technique"] += '; field-not-value presence tests for optionally evaluated tag arguments; zero-expected lint for hash-based collections in the filters; predicate agreement of where / find / find_index / has'
 META["level_text"] += " Also decided (R8): every hook that a strict undefined class answers without raising answers exactly as the default Undefined does."
 
 U = "liquid2.undefined.Undefined"
@@ -541,6 +542,61 @@ def run(prog: Program, res: Result) -> None:  # noqa: PLR0912, PLR0915
     from checks.shared import check_reject_complements_where
 
     check_reject_complements_where(prog, res, "C16.R12")
+    res.rule("C16.R14", "where, find, find_index and has agree on what matches: the same three predicates (lambda result defined and truthy; property == value; property not in (false, nil)) under the same branch tests, so a missing property is 'no match' for all four under every undefined policy")
+    from checks.shared import check_selection_predicates_agree
+
+    check_selection_predicates_agree(prog, res, "C16.R14")
+    # ------------------------------------------------------------------ R15 nil is a value, not an absence
+    res.rule("C16.R15", "a tag tells 'not written' from 'written, and nil' by its own field, never by the value: a local bound as `v = self.F.evaluate(context) if self.F else None` is not tested for None / truth to decide whether the tag binds it - `{% include 'card' with product.image %}` with image = nil binds `card` to nil; testing the value leaves `card` unbound, and the partial's read of it raises UndefinedError under the strict policies although nothing is missing from the data")
+    n15 = 0
+    nb15 = prog.cls("liquid2.ast.Node")
+    for fi15 in sorted(prog.all_functions(), key=lambda f: (f.file, f.node.lineno)):
+        if fi15.cls is None or not prog.is_subclass(fi15.cls, nb15) or fi15.name not in ("render_to_output", "render_to_output_async"):
+            continue
+        optional: dict[str, str] = {}
+        for a in ast.walk(fi15.node):
+            if isinstance(a, ast.Assign) and len(a.targets) == 1 and isinstance(a.targets[0], ast.Name) and isinstance(a.value, ast.IfExp) and isinstance(a.value.orelse, ast.Constant) and a.value.orelse.value is None and isinstance(a.value.test, ast.Attribute) and isinstance(a.value.test.value, ast.Name) and a.value.test.value.id == "self" and "evaluate" in norm(a.value.body, 200):
+                optional[a.targets[0].id] = norm(a.value.test)
+        for v15, field15 in optional.items():
+            n15 += 1
+            bad15 = None
+            for t in ast.walk(fi15.node):
+                test = t.test if isinstance(t, (ast.If, ast.IfExp, ast.While)) else None
+                if test is None or (isinstance(t, ast.IfExp) and any(isinstance(p_, ast.Assign) and isinstance(p_.targets[0], ast.Name) and p_.targets[0].id == v15 for p_ in [fi15.module.parent(t)])):
+                    continue
+                for x in ast.walk(test):
+                    if isinstance(x, ast.Compare) and isinstance(x.left, ast.Name) and x.left.id == v15 and isinstance(x.ops[0], (ast.Is, ast.IsNot)) and isinstance(x.comparators[0], ast.Constant) and x.comparators[0].value is None:
+                        bad15 = (t, norm(x))
+                leaves = test.values if isinstance(test, ast.BoolOp) else [test]
+                for lf in leaves:
+                    lf = lf.operand if isinstance(lf, ast.UnaryOp) and isinstance(lf.op, ast.Not) else lf
+                    if isinstance(lf, ast.Name) and lf.id == v15:
+                        bad15 = (t, norm(test, 40))
+            site = f"{fi15.file}:{fi15.node.lineno} {fi15.qualname}"
+            what = f"{fi15.qualname}: whether `{v15}` is bound depends on {field15}, not on its value"
+            if bad15:
+                res.fail("C16.R15", file=fi15.file, line=bad15[0].lineno, qualname=fi15.qualname, construct=f"{fi15.qualname}: `{bad15[1]}` decides what {field15} should", message=f"{fi15.qualname} tests `{bad15[1]}` where `{v15}` is `None` both when the tag has no {field15} and when the expression evaluates to nil: a bound value of nil is not bound, the partial sees an undefined name, and a strict render fails although the data has the property", what=what)
+            else:
+                res.ok("C16.R15", site, what, "only the field is tested")
+    res.floor("C16.R15", "optionally evaluated locals in render methods", n15, 2)
+    # ------------------------------------------------------------------ R16 no hash-based identity for data elements
+    res.rule("C16.R16", "filters tell elements apart by equality, never by hash: no set / frozenset / dict.fromkeys in liquid2/builtin/filters - all undefined values are equal (and equal to nil) while Undefined hashes by path and the falsy-strict class is unhashable, so a hash-based `uniq` separates what `==` merges, and does so differently under each undefined policy (zero expected; positive example kept)")
+    pos16 = ast.parse("seen = set()\nseen.add(x)")
+    def _hashy(nd: ast.AST) -> bool:
+        return isinstance(nd, (ast.Set, ast.SetComp)) or (isinstance(nd, ast.Call) and ((isinstance(nd.func, ast.Name) and nd.func.id in ("set", "frozenset")) or (dotted(nd.func) or "") in ("dict.fromkeys", "collections.Counter", "Counter")))
+    if not any(_hashy(x) for x in ast.walk(pos16)):
+        raise AnalysisError("C16.R16: positive example not matched")
+    n16 = 0
+    for mod16 in sorted(prog.modules.values(), key=lambda m: m.relpath):
+        if not mod16.relpath.startswith("liquid2/builtin/filters/"):
+            continue
+        for fi16 in mod16.functions.values():
+            n16 += 1
+            for x in ast.walk(fi16.node):
+                if _hashy(x) and prog.enclosing_function(mod16, x) is fi16:
+                    res.fail("C16.R16", file=mod16.relpath, line=x.lineno, qualname=fi16.qualname, construct=f"{fi16.qualname}: hash-based collection `{norm(x, 30)}`", message=f"{fi16.qualname} builds `{norm(x, 40)}`: membership in it goes by hash first - two undefined values of different names are equal but hash apart, a falsy-strict undefined cannot be hashed at all - so the result differs between the default policy (kept apart) and falsy-strict (merged by the fallback), where `==` alone gave one answer", what=f"{fi16.qualname}: no hash-based collection of data")
+    res.ok("C16.R16", "liquid2/builtin/filters/*", "no filter puts data into a set / frozenset / dict.fromkeys", f"{n16} functions; positive example matched")
+    res.floor("C16.R16", "filter functions scanned", n16, 100)
     # ------------------------------------------------------------------ R13 an undefined element is a nil element
     res.rule("C16.R13", "a missing value behaves as nil where filters drop or select nil elements: a comprehension condition in liquid2/builtin/filters that compares an *element* of the input (the comprehension's own target, or a lambda result) with None also tests is_undefined() of it - `map: i => i.t` hands on an Undefined for every item without `t`, and `compact` must drop it as it drops nil")
     n13 = 0
